@@ -67,7 +67,8 @@ Proof. simpl. destruct (u =? 0) eqn:E; split; intro H; try discriminate; try ref
 
 Lemma nonzero_string_means_nonempty s : validate_nonzero (WPrim (CS s)) = Ok tt <-> s <> "".
 Proof.
-  simpl. destruct (String.eqb s "") eqn:E; split; intro H; try discriminate; try reflexivity.
+  unfold validate_nonzero, nonempty_view. cbn [chase_view].
+  destruct (String.eqb s "") eqn:E; split; intro H; try discriminate; try reflexivity.
   - apply String.eqb_eq in E. contradiction.
   - intro X. subst. discriminate.
 Qed.
@@ -93,6 +94,12 @@ Qed.
 (* positive, min and max judge what a pointer points to *)
 Lemma validators_look_through_pointers vo ismin p w :
   validate_positive (WPtr w) = validate_positive w /\ validate_minmax vo ismin p (WPtr w) = validate_minmax vo ismin p w.
+Proof. split; reflexivity. Qed.
+
+(* nonzero and required judge the string, list or map a pointer points to *)
+Lemma emptiness_looks_through_pointers s isnil n :
+  validate_nonzero (WPtr (WPrim (CS s))) = validate_nonzero (WPrim (CS s)) /\
+  validate_required (WPtr (WPtr (WSlice isnil n))) = validate_required (WSlice isnil n).
 Proof. split; reflexivity. Qed.
 
 Lemma required_rejects_nil_pointer : validate_required WPtrNil = Err ERequired "".
